@@ -54,18 +54,47 @@ def make_case(g, name, t, **extra):
     return c
 
 
+def compile_via(g, style, via):
+    """The module to parse through.  via None: the description as it is; 'named': with a
+    `grammar <name>` header (every generated function then threads a context argument);
+    'derived': through a grammar that extends the named one and overrides nothing.  What a
+    description means does not depend on which of the three it is parsed through."""
+    if via is None or g.header or g.extends:
+        return sut.compile_grammar(peg.render(g, style))
+    name = sut.fresh_name('vfvia_')
+    try:
+        mod, err = sut.compile_grammar(peg.render(g.copy(header=name), style))
+        if mod is None or via == 'named':
+            return mod, err
+        child = sut.fresh_name('vfviad_')
+        try:
+            return sut.compile_grammar('grammar %s extends %s\nExtraRuleOfDerived_ = "zz"\n' % (child, name))
+        finally:
+            sut.forget(child)
+    finally:
+        sut.forget(name)
+
+
+def pick_via(desc):
+    return (None, None, 'named', 'derived')[h64('via', desc) % 4]
+
+
 def eval_grammar(res, g, entries, inputs, nontrivial, tag='', pyglobals=None, extra_check=None,
                  keep_whole_grammar=False, style=None, max_hangs=2, key_whole=False):
     """Compile g once; for each entry (name or (name, label)) and input compare sourcer with
     the reference.  `nontrivial(events) -> bool`.  `extra_check(name, t, exp, got, raw) ->
     None | str` adds reference-free invariants."""
     desc = peg.render(g, style)
-    mod, err = sut.compile_grammar(desc)
+    via = pick_via(desc)
+    if g.header or g.extends:
+        via = None
+    res.hist['via_%s' % via] += 1
+    mod, err = compile_via(g, style, via)
     if mod is None:
         res.evals += 1
         res.hist['compile_' + err[0]] += 1
         first = entries[0][0] if isinstance(entries[0], tuple) else entries[0]
-        res.mismatch({'g': peg.g_to_dict(g), 'entry': first, 'text': inputs[0], 'why': 'compile'})
+        res.mismatch({'g': peg.g_to_dict(g), 'entry': first, 'text': inputs[0], 'why': 'compile', 'via': via})
         return None
     rd = g.ruledict()
     hangs = 0
@@ -112,15 +141,15 @@ def eval_grammar(res, g, entries, inputs, nontrivial, tag='', pyglobals=None, ex
                     res.sample({'rule': key, 'input': repr(t), 'expected': list(exp)[:3],
                                 'events': dict(it.events)})
             if bad:
-                case = make_case(g, name, t)
+                case = make_case(g, name, t, via=via)
                 if keep_whole_grammar:
-                    case = {'g': peg.g_to_dict(g), 'entry': name, 'text': t}
+                    case = {'g': peg.g_to_dict(g), 'entry': name, 'text': t, 'via': via}
                 elif len(res.mismatches) < 40:
                     # the reduced grammar (rules reachable from the entry) must still show the mismatch;
                     # otherwise rules interfere across the module and the whole grammar is the case
                     try:
                         if replay_case(case, pyglobals=pyglobals, extra_check=extra_check, style=style) is None:
-                            case = {'g': peg.g_to_dict(g), 'entry': name, 'text': t}
+                            case = {'g': peg.g_to_dict(g), 'entry': name, 'text': t, 'via': via}
                             res.hist['mismatch_needs_whole_grammar'] += 1
                     except Exception:
                         pass
@@ -139,7 +168,10 @@ def replay_case(case, pyglobals=None, extra_check=None, style=None):
     """Generic replay for cases made by make_case."""
     g = peg.g_from_dict(case['g'])
     desc = peg.render(g, style)
-    mod, err = sut.compile_grammar(desc)
+    via = case.get('via')
+    mod, err = compile_via(g, style, via)
+    if via:
+        desc = '# parsed through: %s\n' % via + desc
     t = case['text']
     if mod is None:
         return {'bucket': 'compile:%s' % (err[1] if len(err) > 1 else err[0]), 'got': list(err),
